@@ -35,6 +35,24 @@ def run(ctx):
             ok = True
             why = "exact `imports.get(name)` is tried first; are_semver_compatible is only reachable from the or_else (miss) closure"
     ctx.ob("R10.1", "exact-before-semver", ok, why, site=f.span)
+    # the semver fallback looks at *every* socket import: no filter/skip/take narrows the candidates before the match (a
+    # candidate hidden because an earlier plug already supplied it turns the documented conflict into a silent drop)
+    NARROW = ("filter", "skip", "take", "skip_while", "take_while", "step_by", "filter_map")
+    for b, t in semver_calls:
+        host = b
+        # the `find`/`position` call the predicate closure is handed to, in the closure's parent
+        par = db.fns.get(host.id.rsplit("::{closure", 1)[0]) if "{closure" in host.id else None
+        adaptors = []
+        if par is not None:
+            for c in par.calls():
+                if any(strip(fa) == host.id for fa in c.fnargs):
+                    rs = prov.slice(par, c.args[0], follow_closures=False)
+                    adaptors = sorted({(x.path or "").rsplit("::", 1)[-1] for _, x in rs.calls} & set(NARROW))
+                    whole = rs.has_field("imports", "component::World")
+                    ctx.ob("R10.1", "semver-scan-whole-map", whole and not adaptors,
+                           "the semver-compatible scan ranges over all socket imports" if whole and not adaptors else
+                           "the semver-compatible scan is narrowed by %s before matching: a compatible import that is skipped (e.g. one already supplied) is neither plugged nor reported as a conflict" % (adaptors or "a different collection"),
+                           site="%s in %s" % (c.span, par.id))
     ctx.ob("R10.1", "semver-sites", len(semver_calls) >= 1, "are_semver_compatible call sites in plug: %d" % len(semver_calls), nontrivial=False)
 
     # ---- R10.2 subtype filter, plug on the left, recorded on the Ok edge
@@ -121,6 +139,10 @@ def run(ctx):
             ok4, why4b = flag_idiom(ctx, f, cfg, s)
             if ok4:
                 why4 = why4b
+        if not ok4:
+            ok4, why4b = tracker_idiom(ctx, f, cfg, s)
+            if ok4:
+                why4 = why4b
         ctx.ob("R10.4", "no-plug-edge", ok4, why4, site="%s in %s" % (s.span, f.id))
 
     # ---- R10.5 socket exports re-exported under their own names
@@ -179,6 +201,29 @@ def flag_idiom(ctx, f, cfg, errstmt):
                         tt, ft = true_false_targets(t)
                         if any(cfg.dominates(x, errstmt.bb) for x in ft) or any(cfg.dominates(x, errstmt.bb) for x in tt):
                             return True, "guarded by flag `%s` that is only ever set to the constant true inside the loop" % f.local_name(l)
+    return False, ""
+
+
+def tracker_idiom(ctx, f, cfg, errstmt):
+    """`let mut plugged = HashSet/Vec::new(); … set_instantiation_argument(..)?; plugged.insert(..) … if plugged.is_empty() { Err }`:
+    a local collection that grows only after a successful set_instantiation_argument and whose emptiness guards the error."""
+    prov = ctx.prov
+    sets = [t for t in f.calls() if t.path == CG + "set_instantiation_argument"]
+    for b in f.blocks:
+        t = b.term
+        if t.k != "switch" or not cfg.dominates(b.idx, errstmt.bb):
+            continue
+        sl = prov.slice(f, facts_operand(t))
+        tests = [c for _, c in sl.calls if (c.path or "").rsplit("::", 1)[-1] in ("is_empty", "len")]
+        for c in tests:
+            recv = narrow(prov, f, c.args[0]).locals
+            named = {l for fid, l in recv if fid == f.id and f.local_name(l) and l > f.arg_count}
+            if not named:
+                continue
+            grows = [g for g in f.calls() if (g.path or "").rsplit("::", 1)[-1] in ("insert", "push", "extend", "push_back")
+                     and {l for fid, l in narrow(prov, f, g.args[0]).locals if fid == f.id} & named]
+            if grows and sets and all(any(cfg.dominates(sc.bb, g.bb) and g.bb not in error_blocks(f) for sc in sets) for g in grows):
+                return True, "guarded by the emptiness of `%s`, which grows only after a successful set_instantiation_argument" % "/".join(sorted(f.local_name(l) for l in named))
     return False, ""
 
 
